@@ -95,6 +95,9 @@ def configs(tier):
         cfgs.append({"kind": "delay", "interval": 2, "cons": [cons], "max_elems": 4 if tier == "quick" else 5, "idle_wait": True})
     # callbacks one at a time: emissions and consumer completions fall between two callbacks of one loop iteration
     cfgs.append({"kind": "buffer", "n": 1, "cons": ["future"], "max_elems": 4 if tier == "quick" else 5, "fine": True})
+    # a caller that does not wait for what emit / update hands back
+    cfgs.append({"kind": "buffer", "n": 2, "cons": ["future"], "max_elems": 4 if tier == "quick" else 5, "feeder": "plain"})
+    cfgs.append({"kind": "delay", "interval": 2, "cons": ["future"], "max_elems": 4 if tier == "quick" else 5, "idle_wait": True, "feeder": "plain"})
     # falsy payloads (None, 0) are elements like any other
     cfgs.append({"kind": "buffer", "n": 1, "cons": ["future"], "max_elems": 4 if tier == "quick" else 5, "falsy": {"none": 2, "zero": 3}})
     return cfgs
@@ -130,6 +133,8 @@ def run(tier, seed, mutant=None, only_validate=False):
         traces = {}
         for i, r in enumerate(runs, start=1):
             t = adapt(r)
+            if r["cfg"].get("feeder") == "plain":
+                t = [e for e in t if e["ev"] not in ("EmitDone", "EmitRaised")]
             key = str(sorted(r["cfg"].items()))
             groups.setdefault(key, (r["cfg"], []))[1].append({"id": i, "ev": t})
             traces[i] = (r, t)
